@@ -15,6 +15,15 @@ KF_C38_lcs(ev) == FALSE
 (* change, and the default report filtered everything (exit 0).                                                            *)
 KF_C05_union(ev) == ev.inUnion /\ ev.kinds = <<"member-type">> /\ ev.exit = 0
 
+(* C11 / C19: the default-version re-export rule (see CorpusDiff!KF_DefaultVersionReexport for the structural predicate). *)
+(* These flags only say whether the finding is listed in known-findings.jsonl.                                            *)
+KF_C11_listed == TRUE
+KF_C19_listed == TRUE
+
+(* C08: FALSE unless listed *)
+KF_C08(ev) == FALSE
+KF_C08_id(ev) == "none"
+
 (* C04: FALSE unless listed *)
 KF_C04_unescaped(ev) == FALSE
 ====================================================================================================
